@@ -600,7 +600,13 @@ fn control_point_cases(run: &mut Run, seed: u64, thorough: bool, only: Option<&s
             run.fail("oracle:wellformed", "", &id, v, text.clone());
         }
         if neg_zero_duplicate(&map) {
-            run.count("note:control-points-at--0.0-and-+0.0(strict in total_cmp order only)");
+            run.fail(
+                "oracle:control-points-equal-times",
+                "control-points-signed-zero",
+                &id,
+                "control points at -0.0 and +0.0 coexist (strict only in total_cmp order)".into(),
+                text.clone(),
+            );
         }
         if ci == 133 {
             run.sample(format!("{id}: mode={mode} shape={shape} text-tail={:?}", text.lines().skip(6).collect::<Vec<_>>()));
@@ -892,7 +898,13 @@ fn check_bytes(run: &mut Run, id: &str, bytes: &[u8], check_path: bool) {
                 run.fail("oracle:wellformed", "", id, v, repro_of(bytes));
             }
             if neg_zero_duplicate(m) {
-                run.count("note:control-points-at--0.0-and-+0.0(strict in total_cmp order only)");
+                run.fail(
+                    "oracle:control-points-equal-times",
+                    "control-points-signed-zero",
+                    id,
+                    "control points at -0.0 and +0.0 coexist (strict only in total_cmp order)".into(),
+                    repro_of(bytes),
+                );
             }
         }
         Err(_) => run.count("wf:io-error"),
